@@ -418,7 +418,9 @@ fn c13() -> Outcome {
         let nt = 1 + r.below(3); let terms: Vec<(u64, f64)> = (0..nt).map(|_| (r.pick(&[1u64, 2, 3]), cf(&mut r))).collect();
         let f = if r.chance(1, 3) { let q: Vec<(u64, u64, f64)> = (0..1 + r.below(2)).map(|_| (r.pick(&[1u64, 2, 3]), r.pick(&[1u64, 2, 3]), r.pick(&[-1.0, 0.5, 1.0, 2.0]))).collect(); let mut seen = BTreeSet::new(); let q: Vec<(u64, u64, f64)> = q.into_iter().filter(|e| seen.insert((e.0, e.1))).collect(); f_of(F::Quadratic(quad(&q, Some(lin(&terms, cf(&mut r) * 2.0))))) } else { f_of(F::Linear(lin(&terms, cf(&mut r) * 2.0))) };
         let mut i = inst(dvs, f_of(F::Constant(0.0)), vec![con(7, Equality::EqualToZero, f_of(F::Linear(lin(&[(1, 1.0)], 0.0)))), con(4, Equality::LessThanOrEqualToZero, f.clone())]);
-        if r.chance(1, 2) { i.constraints.swap(0, 1); }
+        // the constraint list is in user order: a third constraint, ids in any order
+        i.constraints.push(con(if r.chance(1, 2) { 2 } else { 12 }, Equality::LessThanOrEqualToZero, f_of(F::Linear(lin(&[(2, 1.0)], -1.0)))));
+        r.shuffle(&mut i.constraints);
         let which = r.below(2); let limit = r.pick(&[2u64, 5, 1000]);
         if n == 3 { note(|| format!("random: slack conversion which={which} limit={limit} on {f:?} <= 0")); }
         if let Err(e) = check_slack(&i, which, limit) { fail!(n, "{e}"); }
